@@ -108,8 +108,17 @@ pub fn child(args: &Args) -> ! {
             unsafe { libc::_exit(0) };
         }
         let (entries, cuts) = script(seed);
-        let mut start = 0usize;
-        for (k, end) in cuts.iter().enumerate() {
+        // resume=1: a restarted node - continue from the applied index the state machine
+        // reports (what the Raft layer does), in the same chunking
+        let resume_from = if args.u64("resume", 0) == 1 { sm.last_applied().index as usize } else { 0 };
+        let mut start = resume_from.min(entries.len());
+        let mut done_chunks = 0u64;
+        for (_k, end) in cuts.iter().enumerate() {
+            if *end <= start {
+                continue;
+            }
+            let k = done_chunks as usize;
+            done_chunks += 1;
             let chunk = &entries[start..*end];
             let _ = std::fs::OpenOptions::new().create(true).append(true).open(&journal).map(|mut f| {
                 use std::io::Write;
@@ -189,8 +198,8 @@ pub fn run(args: &Args, scratch: &Path) -> ShardReport {
         let engine = ["file", "rocksdb"][ei];
         let (entries, cuts) = script(s);
         let mode = match r.below(10) {
-            0..=3 => "exit",
-            4 => "twice",
+            0..=2 => "exit",
+            3 | 4 => "twice",
             _ if have_strace => "sys",
             _ => "exit",
         };
@@ -240,11 +249,18 @@ pub fn run(args: &Args, scratch: &Path) -> ShardReport {
             continue;
         }
         if mode == "twice" {
-            let _ = Proc::new(&me)
-                .args(["smcrash-child", &format!("engine={engine}"), &format!("dir={}", dir.display()), &format!("seed={s}"), "reopen_only=1"])
-                .stdout(Stdio::null())
-                .stderr(Stdio::null())
-                .status();
+            // second incarnation: reopen, either crash right away or apply 1-2 more chunks from
+            // the reported applied index and crash again (no graceful stop in between)
+            let more = r.below(3);
+            let mut a = vec!["smcrash-child".to_string(), format!("engine={engine}"), format!("dir={}", dir.display()), format!("seed={s}")];
+            if more == 0 {
+                a.push("reopen_only=1".into());
+            } else {
+                a.push("resume=1".into());
+                a.push(format!("exit_after={more}"));
+            }
+            crash_desc["second_incarnation"] = if more == 0 { json!("reopen then crash") } else { json!(format!("reopen, apply {more} more chunk(s), crash")) };
+            let _ = Proc::new(&me).args(&a).stdout(Stdio::null()).stderr(Stdio::null()).status();
         }
         let journal = std::fs::read_to_string(dir.join("journal.txt")).unwrap_or_default();
         let begun = journal.lines().filter(|l| l.starts_with("B ")).filter_map(|l| l[2..].parse::<u64>().ok()).max().unwrap_or(0);
